@@ -890,7 +890,7 @@ class PDFFont:
             self.default_width = num_value(descriptor.get("MissingWidth", 0))
         else:
             self.default_width = default_width
-        self.default_width = resolve1(self.default_width)
+        self.default_width = num_value(self.default_width)
         self.leading = num_value(descriptor.get("Leading", 0))
         self.bbox = self._parse_bbox(descriptor)
         self.hscale = self.vscale = 0.001
